@@ -350,7 +350,7 @@ func docFor(res *Result, iri string) (J, string) {
 		// the fault plan is part of the world the models see: a Dereference made to fail makes that IRI unreachable
 		res.faultedDeref = map[string]bool{}
 		for _, e := range res.Sim.Log {
-			if e.Kind == "tp.Dereference" && e.Fault {
+			if e.Kind == "tp.Dereference" && e.Fault && (res.faultTask == "" || e.Task == res.faultTask || strings.HasPrefix(e.Task, res.faultTask+".")) {
 				res.faultedDeref[e.ID] = true
 			}
 		}
